@@ -29,3 +29,29 @@ package floatingip
 //@ func [C20,C18,C08] walkIPRanges inline
 //@   requires forall i int :: 0 <= i && i < len(ranges) ==> nets.wfRange(ranges[i])
 //@   loop 1 decreases last - first
+
+// ---- type invariants of the surfaces (assumed at entry of safety sweeps, C18) ----
+//@ typeinv FloatingIP: self.pool != nil
+//@ typeinv crdIpam: self.cacheLock != nil && self.allocatedFIPs != nil && self.unallocatedFIPs != nil && self.client != nil && held[ptr(self.cacheLock)] == 0 && (forall k string :: k in self.allocatedFIPs ==> self.allocatedFIPs[k] != nil && self.allocatedFIPs[k].pool != nil) && (forall k string :: k in self.unallocatedFIPs ==> self.unallocatedFIPs[k] != nil && self.unallocatedFIPs[k].pool != nil) && (forall i int :: 0 <= i && i < len(self.FloatingIPs) ==> self.FloatingIPs[i] != nil && (forall k int :: 0 <= k && k < len(self.FloatingIPs[i].NodeSubnets) ==> self.FloatingIPs[i].NodeSubnets[k] != nil))
+//@ typeinv FloatingIPPool: (forall i int :: 0 <= i && i < len(self.NodeSubnets) ==> self.NodeSubnets[i] != nil) && (forall r int :: 0 <= r && r < len(self.IPRanges) ==> nets.wfRange(self.IPRanges[r]))
+// sort.Interface: indices are in range; pools are non-nil
+//@ func [C18] (FloatingIPSlice).Less
+//@   requires 0 <= i && i < len(s) && 0 <= j && j < len(s) && s[i] != nil && s[j] != nil
+//@ func [C18] (FloatingIPSlice).Swap
+//@   requires 0 <= i && i < len(s) && 0 <= j && j < len(s)
+//@ func [C18] (*FloatingIPPool).tryMerge
+//@   requires fip != nil && -1 <= i && i < len(fip.IPRanges)
+
+// decoding a pool: the ranges it stores are the well-formed ranges ParseIPRange returned (C20)
+//@ func [C20,C18] (*FloatingIPPool).UnmarshalJSON
+//@   requires fip != nil
+//@   ensures [C20:accepted-pool-ranges-wellformed] result == nil ==> (forall j int :: 0 <= j && j < len(fip.IPRanges) ==> nets.wfRange(fip.IPRanges[j])) && nets.sortedGap(fip.IPRanges)
+//@   modifies all
+//@   loop 1 invariant fip != nil && forall j int :: 0 <= j && j < len(fip.IPRanges) ==> nets.wfRange(fip.IPRanges[j])
+//@ func [C18] (*FloatingIPPool).MarshalJSON
+//@   requires fip != nil && forall k int :: 0 <= k && k < len(fip.NodeSubnets) ==> fip.NodeSubnets[k] != nil
+//@   modifies all
+//@   loop 0 invariant fip != nil && forall k int :: 0 <= k && k < len(fip.NodeSubnets) ==> fip.NodeSubnets[k] != nil
+//@ func [C18] (*FloatingIPPool).String
+//@   requires fip != nil && forall k int :: 0 <= k && k < len(fip.NodeSubnets) ==> fip.NodeSubnets[k] != nil
+//@   modifies all
